@@ -13,12 +13,14 @@ def digitVal (c : Char) : Option Nat :=
   else none
 
 /-- value of a non-empty digit string in the radix; `none` on an invalid digit or `[]` -/
+def digitStep (radix : Nat) (acc : Option Nat) (c : Char) : Option Nat :=
+  match acc, digitVal c with
+  | some a, some d => if d < radix then some (a * radix + d) else none
+  | _, _ => none
+
 def digitsVal (radix : Nat) : List Char → Option Nat
   | [] => none
-  | cs => cs.foldl (fun acc c =>
-      match acc, digitVal c with
-      | some a, some d => if d < radix then some (a * radix + d) else none
-      | _, _ => none) (some 0)
+  | cs => cs.foldl (digitStep radix) (some 0)
 
 /-- `{integer}::from_str_radix` (core::num): a leading `+` is stripped, a leading `-` only for
     signed types; a lone sign is an error; then digits, with overflow detection -/
